@@ -65,4 +65,25 @@ CHECKS = {
              "float is harmless; output of the translation function for "
              "static template text; dict-attribute *keys* are written raw "
              "(the statement speaks of values)."),
+    "C01": dict(
+        technique="abstract interpretation of MacroProgram.visit_element "
+                  "(wrapper nesting for all statement subsets at once, "
+                  "construction chain, keyed-only reads) and of the "
+                  "statement emitters (emission-tree skeletons)",
+        text="Decides the nesting of statement wrappers for every subset of "
+             "statements (each statement -> its node kind, applied iff "
+             "present, pinned outer/inner pairs: on-error outermost, "
+             "definitions outside guards, condition outside repeat, guards "
+             "outside content/replace/element), the construction chain "
+             "(content default keeps children, replace default keeps the "
+             "whole element, omit-tag conditions both tags and is cached, "
+             "attributes inside the start tag), that statement attributes "
+             "are consumed by keyed lookup only (written order cannot "
+             "matter), the skeletons of the Define/Condition/Repeat/Element/"
+             "Cache/Cancel emitters, None/default handling at the sinks, and "
+             "that tal:case reads a switch only inside its Cache.",
+        note="Outputs for concrete value classes and the argument regexes "
+             "(DEFINE_RE, SUBST_RE, ATTR_RE) are value-level and not decided; "
+             "the relative order of case/switch w.r.t. condition/repeat is "
+             "not pinned (docs and code disagree)."),
 }
